@@ -132,10 +132,13 @@ class View:
     locals expandable.  Rules ask questions about roles (what is called, with what, under which facts), so renamed locals,
     hoisted sub-expressions, guard clauses and extracted helpers do not change the answers."""
 
-    def __init__(self, project, func, inline=True, unroll=False):
+    def __init__(self, project, func, inline=True, unroll=False, keep=()):
         from . import norm
         self.p, self.f = project, func
-        self.node = copy.deepcopy(norm.nf(project, func, inline=inline))
+        if keep:
+            self.node = norm.nf(project, func, select=lambda call, g: g.name not in keep)
+        else:
+            self.node = copy.deepcopy(norm.nf(project, func, inline=inline))
         if unroll:
             self.node.body = unroll_literal_loops(self.node.body)
         self.defs = defs_of(self.node, params=func.params)
@@ -189,3 +192,70 @@ class View:
 
     def returns(self):
         return [n for n in self.nodes if isinstance(n, ast.Return)]
+
+
+def strparts(e):
+    """a string-building expression as the list of its pieces: constants (merged) and sources of the inserted
+    expressions.  '%s.%s' % (a, b), a + '.' + b, f'{a}.{b}' and '{}.{}'.format(a, b) all give [a, '.', b] (constants are
+    kept as python strings, inserted expressions as ('x', source)).  None when the expression is not understood."""
+    def merge(parts):
+        out = []
+        for x in parts:
+            if isinstance(x, str) and out and isinstance(out[-1], str):
+                out[-1] += x
+            elif x != '':
+                out.append(x)
+        return out
+    if isinstance(e, ast.Constant) and isinstance(e.value, str):
+        return merge([e.value])
+    if isinstance(e, ast.BinOp) and isinstance(e.op, ast.Add):
+        a, b = strparts(e.left), strparts(e.right)
+        if a is None or b is None:
+            return None
+        return merge(a + b)
+    if isinstance(e, ast.BinOp) and isinstance(e.op, ast.Mod) and isinstance(e.left, ast.Constant) and isinstance(e.left.value, str):
+        args = list(e.right.elts) if isinstance(e.right, ast.Tuple) else [e.right]
+        fmt = e.left.value
+        out, i, k = [], 0, 0
+        while i < len(fmt):
+            if fmt[i] == '%':
+                if fmt[i + 1:i + 2] == '%':
+                    out.append('%')
+                    i += 2
+                    continue
+                if fmt[i + 1:i + 2] == 's' and k < len(args):
+                    out.append(('x', src_of(args[k])))
+                    k += 1
+                    i += 2
+                    continue
+                return None
+            out.append(fmt[i])
+            i += 1
+        if k != len(args):
+            return None
+        return merge(out)
+    if isinstance(e, ast.JoinedStr):
+        out = []
+        for v in e.values:
+            if isinstance(v, ast.Constant):
+                out.append(v.value)
+            elif isinstance(v, ast.FormattedValue) and v.conversion == -1 and v.format_spec is None:
+                out.append(('x', src_of(v.value)))
+            else:
+                return None
+        return merge(out)
+    if isinstance(e, ast.Call) and isinstance(e.func, ast.Attribute) and e.func.attr == 'format' and isinstance(e.func.value, ast.Constant) \
+            and isinstance(e.func.value.value, str) and not e.keywords:
+        fmt = e.func.value.value
+        pieces = fmt.split('{}')
+        if len(pieces) != len(e.args) + 1 or '{' in ''.join(pieces) or '}' in ''.join(pieces):
+            return None
+        out = []
+        for i, pc in enumerate(pieces):
+            out.append(pc)
+            if i < len(e.args):
+                out.append(('x', src_of(e.args[i])))
+        return merge(out)
+    if isinstance(e, (ast.Name, ast.Attribute, ast.Call, ast.Subscript)):
+        return [('x', src_of(e))]
+    return None
